@@ -23,12 +23,14 @@ TRUSTED = [
 ]
 ASSUMPTIONS = [
     "graph objects are numbered topologically (an input points to a smaller index): every acyclic pointer graph has such a numbering; cyclic Node structures are outside the property",
-    "theorems are stated for runs that return (f g = Ok g'); that the model's fuel suffices is checked on every generated case (an OutOfFuel answer is a disagreement), not proved",
+    "theorems are stated for runs that return (f g = Ok g'): Err is a Python exception or an out-of-domain marker; that the model's fuel suffices on acyclic graphs with valid sinks is proved (C11_engine_fuel_sufficient, C11_fuel_all)",
     "inputs refer to outputs their parents have (otherwise Transformer falls back to a (node, output) tuple and the result is not a graph): model answers model:tuple-input, generator stays inside",
     "C11_dedup_preserves: the interpretation takes inputs as keyword arguments (a dictionary: hypothesis interp_kw), because _cmp_nodes merges nodes whose inputs are listed in a different order; "
     "the predicate only merges nodes of equal payload (pred_payload); C11_dedup_no_two_equal: pred decides payload equality (pred_spec); "
     "self.nodes (a set) is modelled as a list in registration order, __find_node returns the first match",
-    "C11_split_rejoin: key function, key equality and the cut-name hash are arbitrary parameters; re-joining = the source node of a cut denotes the output the cut replaced (sem_rj)",
+    "C11_split_rejoin / C11_split_cuts_exact_partial: key function, key equality and the cut-name hash are arbitrary parameters; re-joining = the source node of a cut denotes the output the cut replaced (sem_rj); "
+    "C11_split_partition: key equality is equality (keqb a b = true <-> a = b). That distinct cut edges get distinct names (CutEdge.name is a hash) is outside the model: the oracle checks it on adversarial field texts",
+    "C11_dedup_idempotent: pred decides payload equality; sink order of the model (the implementation's set order is matched by the checker)",
     "C11_expand_preserves_partial: hypothesis splice_denotes (every spliced sub-graph denotes the node it replaces, stated on the result of the model's splice step); the expander returns a FRESH sub-graph on every call",
     "C11_fuse_preserves: node.inputs is a dict (distinct input names); the callback contract (result refers to existing nodes only, keeps the child's other inputs, denotes the child when the child's input cin is fed by "
     "something denoting the parent's output) -- the harness's `inline` callback is checked against this reading by the oracle (fused nodes are read as child-with-parent-inlined), not proved to satisfy it",
